@@ -8,8 +8,8 @@ checks=("$@"); [ ${#checks[@]} -eq 0 ] && checks=("$id")
 wt=$(mktemp -d /tmp/cw-XXXXXX); rmdir "$wt"
 git -C /repo worktree add -q --detach "$wt" HEAD || exit 3
 trap 'git -C /repo worktree remove --force "$wt" >/dev/null 2>&1; rm -rf "$wt"' EXIT
-orig=$(grep -o '/tmp/w[t23456]-C[0-9]*' "$src/demo.py" | head -1)
-demo="$wt/.demo.py"; sed "s#/tmp/w[t23456]-C[0-9]*#$wt#g" "$src/demo.py" > "$demo"
+orig=$(grep -o '/tmp/w[t234567]-C[0-9]*' "$src/demo.py" | head -1)
+demo="$wt/.demo.py"; sed "s#/tmp/w[t234567]-C[0-9]*#$wt#g" "$src/demo.py" > "$demo"
 run_demo() { ( cd "$wt" && PYTHONPATH="$wt" timeout 900 /venv/bin/python -B -W ignore "$demo" >/dev/null 2>&1 ); echo $?; }
 d0=$(run_demo)
 ( cd "$wt" && git apply "$src/patch.diff" ) || { echo "{\"dir\":\"$src\",\"error\":\"patch does not apply\"}"; exit 3; }
